@@ -431,7 +431,80 @@ def o_default_stack_isolation(inp):
     return (None, True, ("default-stack-isolation",))
 
 
-SUBS = {"parse": o_parse, "write": o_write, "isolation": o_default_stack_isolation}
+ROUTE_DOCS = [
+    "@article{k1,\n  author = {Ada Lovelace and de la Vall{\\'e}e Poussin, Charles and {Simon and Schuster}},\n  Title = {A {B}é $x$ & c},\n  month = 3,\n  year = 1999,\n  editor = \"Knuth, Donald E.\"\n}\n"
+    "@string{s = \"str {x} é\"}\n@misc{k2, month = jan, title = s, note = \"50\\% of http://a.b/c\", MONTH = {12}}\n% free text é\n@preamble{\"pre\"}\n@comment{c}\n"
+    "@misc{k2, author = {Second and , Broken,,}}\n@misc{k3, x = 1, x = 2, author = {B, A}}\n@broken{\n",
+]
+ROUTE_PREFIXES = [[], [{"mw": "SeparateCoAuthors", "name_fields": None}], [{"mw": "SeparateCoAuthors", "name_fields": None}, {"mw": "SplitNameParts", "name_fields": None}],
+                  [{"mw": "RemoveEnclosing"}], [{"mw": "LatexEncoding"}]]
+
+
+def _splice(results):
+    out = []
+    for r in results:
+        if r is None:
+            continue
+        if isinstance(r, Block):
+            out.append(r)
+        else:
+            out.extend(r)
+    return out
+
+
+def o_routes(inp):
+    """A shipped block middleware reached three ways must do the same: `.transform(library)` (what a stack calls), the
+    documented per-block hook `.transform_block(block, library)` spliced by hand, and the per-kind handlers
+    (`transform_entry` / `transform_string` / ...) of an in-place instance.
+    inp: {"doc": i, "raw": bool, "prefix": i, "mw": index into libgen.all_middleware_specs(), "inplace": bool}"""
+    specs = libgen.all_middleware_specs()
+    spec = specs[inp["mw"] % len(specs)]
+    text = ROUTE_DOCS[0] if inp["doc"] < 0 else get_doc(inp["doc"])
+    base = Splitter(text).split() if inp["raw"] else bibtexparser.parse_string(text)
+    for ps in ROUTE_PREFIXES[inp["prefix"] % len(ROUTE_PREFIXES)]:
+        if not libgen.stage_compatible(ps, base):
+            return (None, False, ("outside-domain",))
+        base = libgen.make_middleware(ps, inplace=True).transform(base)
+    mw = libgen.make_middleware(spec, inplace=inp["inplace"])
+    if not isinstance(mw, BlockMiddleware) or not libgen.stage_compatible(spec, base):
+        return (None, False, ("outside-domain",))
+    cls = ["routes", "routes:" + spec["mw"]]
+    a = canon(mw.transform(copy.deepcopy(base)).blocks)
+    l2 = copy.deepcopy(base)
+    mw2 = libgen.make_middleware(spec, inplace=inp["inplace"])
+    b = canon(Library(_splice([mw2.transform_block(x, l2) for x in list(l2.blocks)])).blocks)
+    if a != b:
+        return ((f"routes:transform-vs-transform_block:{spec['mw']}", repr(b), repr(a)), True, cls)
+    l3 = copy.deepcopy(base)
+    mw3 = libgen.make_middleware(spec, inplace=True)
+    res = []
+    for x in list(l3.blocks):
+        k = kind_of(x)
+        if k == "entry":
+            res.append(mw3.transform_entry(x, l3))
+        elif k == "string":
+            res.append(mw3.transform_string(x, l3))
+        elif k == "preamble":
+            res.append(mw3.transform_preamble(x, l3))
+        elif k == "ecomment":
+            res.append(mw3.transform_explicit_comment(x, l3))
+        elif k == "icomment":
+            res.append(mw3.transform_implicit_comment(x, l3))
+        else:
+            res.append(x)
+    c = canon(Library(_splice(res)).blocks)
+    # compared with the in-place run of `.transform` (a duplicate block's `previous_block` is the live block itself, so
+    # in-place and copy mode legitimately differ in what that reference shows)
+    a_in = a if inp["inplace"] else canon(libgen.make_middleware(spec, inplace=True).transform(copy.deepcopy(base)).blocks)
+    if a_in != c:
+        return ((f"routes:transform-vs-per-kind-handlers:{spec['mw']}", repr(c), repr(a_in)), True, cls)
+    changed = a != canon(base.blocks)
+    if changed:
+        cls.append("routes:middleware-had-an-effect")
+    return (None, changed, cls)
+
+
+SUBS = {"parse": o_parse, "write": o_write, "isolation": o_default_stack_isolation, "routes": o_routes}
 
 N_DOCS = len(DOC_INTS) + len(HAND_DOCS)
 LIB_PROBES = [{"probe": "lib", "tag": t} for t in "ABC"]
@@ -496,6 +569,15 @@ def w_raw_block_probes(acc):
     acc.classes["raw-block-probe"] += 1
 
 
+def w_routes(acc, mw_lo, mw_hi):
+    for mwi in range(mw_lo, mw_hi):
+        for doc in ([-1, 0, 5, 10, 14, 15, 16] if os.environ.get("_VERIF_TIER") != "thorough" else [-1] + list(range(N_DOCS))):
+            for pi in range(len(ROUTE_PREFIXES)):
+                for raw in (False, True):
+                    for inplace in (True, False):
+                        acc.run("routes", o_routes, {"doc": doc, "raw": raw, "prefix": pi, "mw": mwi, "inplace": inplace}, True)
+
+
 def w_isolation(acc):
     for doc in range(N_DOCS):
         for edit in ("append", "pop", "clear"):
@@ -541,6 +623,8 @@ def run(chk):
         tasks.append(("w_block_probes", (k,)))
     tasks.append(("w_isolation", ()))
     tasks.append(("w_raw_block_probes", ()))
+    nspec = len(libgen.all_middleware_specs())
+    tasks += [("w_routes", (lo, min(nspec, lo + 4))) for lo in range(0, nspec, 4)]
     n_rand = 40000 if quick else 400000
     shards = 16 if quick else 64
     for s in range(shards):
@@ -563,5 +647,5 @@ def run(chk):
         "order-sensitive members, a non-UTF-8 file with non-ASCII content, a block probe returning something other than one block, "
         "or a file target."
     )
-    chk.required_classes = ["parse:string", "parse:file", "write:string", "write:path", "write:file", "write:stringio", "both-given", ">=2-order-sensitive", "block-probe", "raw-block-probe", "enc:gbk", "enc:utf-16", "enc:latin-1", "non-ascii-file", "default-stack-isolation"]
+    chk.required_classes = ["parse:string", "parse:file", "write:string", "write:path", "write:file", "write:stringio", "both-given", ">=2-order-sensitive", "block-probe", "raw-block-probe", "routes:middleware-had-an-effect", "enc:gbk", "enc:utf-16", "enc:latin-1", "non-ascii-file", "default-stack-isolation"]
     chk.assumptions = ["documents contain no carriage return (text-mode file reading translates line endings)", "an empty non-list collection returned by a block middleware (e.g. '') counts as 'empty'; not asserted either way"]
